@@ -562,10 +562,10 @@ Definition react_shut (c : cfg) (n : nat) (p : list nat) (culprit : nat) (s : st
 Definition react_shtidy (c : cfg) (n : nat) (culprit : nat) (s : state) : state * list out :=
   let '(s1, r) := react_shtidy_wake n s in
   if sd_inline s n then
-    match r with
-    | SRCancelled => let '(s2, mo2) := end_cancelled c n s1 in (s2, OSdEnd n SRCancelled :: mo2)
-    | _ => finish_run c n (why_of s n) r culprit s1
-    end
+    (* inline: the run remembers in [rcanc] that it was cancelled while shutting down *)
+    if rcanc (Rn s n) then
+      let '(s2, mo2) := end_cancelled c n s1 in (s2, OSdEnd n SRCancelled :: mo2)
+    else finish_run c n (why_of s n) SRFalse culprit s1
   else (hdone n r s1, [OSdEnd n r]).
 
 (* CancelledError at the main wait: Scheduler.co_run tidies the unfinished job tasks *)
@@ -595,7 +595,12 @@ Definition react_cancel_ctidy (c : cfg) (n : nat) (s : state) : state * list out
   (mapJ cancel_j (pend r) (clear_cp s n), [OWaitCall n KCTidy (pend r) None]).
 
 Definition react_cancel_shut (c : cfg) (n : nat) (s : state) : state * list out :=
-  react_shut_cancel c n (if sd_inline s n then clear_cp s n else clear_hcp s n).
+  if sd_inline s n then
+    let s0 := clear_cp s n in
+    let r0 := Rn s0 n in
+    react_shut_cancel c n
+      (setR s0 n (mkRst (ph r0) (pend r0) (seen r0) (ndone r0) (qsz r0) (expi r0) (tbeg r0) (fto r0) (fcr r0) true))
+  else react_shut_cancel c n (clear_hcp s n).
 
 (* first step of the co_shutdown() task of nested scheduler [n] (or the late explicit
    shutdown of the root) *)
@@ -722,7 +727,7 @@ Definition guards (c : cfg) (s : state) (e : event) : list guard :=
       [fst (sd_thread_ok c s n false); snd (sd_thread_ok c s n false);
        (3, 51, match sp ss with SdTidy => true | _ => false end);
        (3, 52, forallb (hfin s) (spend ss));
-       (0, 53, if inline && negb (scanc ss) then culprit_ok c s n (why_of s n) (culprit_of o) else true)]
+       (0, 53, if inline && negb (rcanc (Rn s n)) then culprit_ok c s n (why_of s n) (culprit_of o) else true)]
        ++ outs_guards 54 o mo
   | ECancelled n KMain o =>
       [(0, 60, run_alive c s n true);
